@@ -35,7 +35,7 @@ pub const FAMILIES: &[&str] = &["rule", "transform", "request", "body", "analysi
 
 const HOSTILE_REGEX: &[&str] = &[
     "[0-9]+", ".*", ".+?", "", "(", ")", "[", "[a-", "(?:", "a{1000}", "(a|b|", "\\", "\\p{Ll", "(?P<n>x)", "(?P<marker>x)", "((((((((((a))))))))))", "a**", "[[:alpha:]]", "(?i)x", "^$", "$^", "\u{e9}+",
-    "(cat|dog)", "([\\p{Ll}]|\\-)+?", "x{2,1}", "(?:[)]x)", "\\d{99999}", ".{0,1000}.{0,1000}", "(\\?.*)?$", "\u{1f918}",
+    "(cat|dog)", "([\\p{Ll}]|\\-)+?", "x{2,1}", "(?:[)]x)", "\\d{99999}", ".{0,1000}.{0,1000}", "(\\?.*)?$", "\u{1f918}", "[a-z]{2}(?P<region>-[a-z]{2})?", "(?P<a>x)|(?P<b>y)", "x)?(y",
 ];
 const HOSTILE_STRINGS: &[&str] = &[
     "", " ", "/", "//", "/a", "/a?b=c", "?", "#", "%", "%zz", "%ff", "\u{0}", "\n", "caf\u{e9}", "\u{1f355}", "@", "@marker", "@@", "a@b", "{}", "[", "`", "\\", "\"", "'", "<", ">", "../..", "mailto:x@y.z",
@@ -375,7 +375,11 @@ fn case_rule(seed: u64) {
 fn case_transform(seed: u64) {
     let mut rng = Rng::new(seed);
     let config: RouterConfig = serde_json::from_value(config_json(&mut rng)).unwrap_or_default();
-    let captures = ["abc", "a", "", "caf\u{e9}", "\u{65e5}\u{672c}\u{8a9e}", "\u{1f355}x", "x\u{e9}y\u{e9}z", "Hello World", "a-b_c"];
+    let captures = ["abc", "a", "", "caf\u{e9}", "\u{65e5}\u{672c}\u{8a9e}", "\u{1f355}x", "x\u{e9}y\u{e9}z", "Hello World", "a-b_c", "fr", "fr-ca", "x", "y", "zab"];
+    // marker expressions that bring their own groups: optional / alternative named groups that do not take part
+    // in every match, and an unbalanced expression that still yields a valid overall pattern
+    let marker_regexes = [".+?", ".+?", ".+?", "[a-z]{2}(?P<region>-[a-z]{2})?", "(?P<a>x)|(?P<b>y)", "x)?(y", "(?P<opt>z)?[a-z]+", "(a)|(b)|.+"];
+    let (re_m, re_h, re_k) = (*rng.pick(&marker_regexes), *rng.pick(&marker_regexes), *rng.pick(&marker_regexes));
     let numeric = |rng: &mut Rng| -> Value {
         let n = rng.range(0, 6);
         json!((0..n)
@@ -397,9 +401,9 @@ fn case_transform(seed: u64) {
         "target": "/to/@m/@h/@k/@v1",
         "status_code": 302,
         "markers": [
-            {"name": "m", "regex": ".+?", "transformers": numeric(&mut rng)},
-            {"name": "h", "regex": ".+?", "transformers": numeric(&mut rng)},
-            {"name": "k", "regex": ".+?", "transformers": numeric(&mut rng)}
+            {"name": "m", "regex": re_m, "transformers": numeric(&mut rng)},
+            {"name": "h", "regex": re_h, "transformers": numeric(&mut rng)},
+            {"name": "k", "regex": re_k, "transformers": numeric(&mut rng)}
         ],
         "variables": if rng.coin() { json!([]) } else { json!([
             {"name": "m", "type": {"marker": "m"}, "transformers": numeric(&mut rng)},
